@@ -88,7 +88,9 @@ pub fn gen_case(prop: &str, tier: Tier, seed: u64) -> Case {
         "C14" => thrprops::gen_c14(tier, seed),
         "C06" => thrprops::gen_c06(tier, seed),
         "C11" => seqprops::gen_c11(tier, seed),
+        "C12" if seed % 8 == 0 => thrprops::gen_c12t(tier, seed),
         "C12" => seqprops::gen_c12(tier, seed),
+        "C16" if seed % 8 == 0 => thrprops::gen_c16t(tier, seed),
         "C16" => seqprops::gen_c16(tier, seed),
         "C18" => seqprops::gen_c18(tier, seed),
         "C02" => crashprops::gen_c02(tier, seed),
